@@ -9,7 +9,7 @@ VERIF = os.path.dirname(os.path.dirname(os.path.abspath(__file__)))
 SEEDED = os.path.join(VERIF, "seeded")
 
 def sh(cmd, cwd=None, timeout=1800, env=None):
-    r = subprocess.run(cmd, shell=True, cwd=cwd, stdout=subprocess.PIPE, stderr=subprocess.STDOUT, text=True, timeout=timeout, env=env)
+    r = subprocess.run(cmd, shell=True, cwd=cwd, stdout=subprocess.PIPE, stderr=subprocess.STDOUT, text=True, errors="replace", timeout=timeout, env=env)
     return r.returncode, r.stdout
 
 def worktree(tag):
@@ -53,9 +53,11 @@ def cmd_import(prop, i, src):
     d = worktree(sid)
     meta = dict(id=sid, property=prop, source="independent sub-agent given only the property text and a scratch worktree")
     try:
-        os.makedirs(os.path.join(d, "OUT", str(i)), exist_ok=True)
-        shutil.copy(os.path.join(dst, demo), os.path.join(d, "OUT", str(i), demo))
         cmd = demo_cmd(os.path.join(dst, demo))
+        sub = re.search(r"OUT/(\d+)/", cmd or "")
+        sub = sub.group(1) if sub else str(i)   # the command in the demo's header names the directory the author used
+        os.makedirs(os.path.join(d, "OUT", sub), exist_ok=True)
+        shutil.copy(os.path.join(dst, demo), os.path.join(d, "OUT", sub, demo))
         meta["demo_cmd"] = cmd
         rc0, out0 = sh(cmd, cwd=d, timeout=600) if cmd else (None, "no command found")
         meta["demo_unchanged_exit"] = rc0
